@@ -16,7 +16,7 @@ Proof.
   induction ops as [|o t IH]; intros q Hc Hcl; [reflexivity|].
   cbn [qrun]. destruct (qstep q o) as [q1 r] eqn:E1. destruct (qrun q1 t) as [q2 rs] eqn:E2.
   cbn [snd map]. assert (R : rs = snd (qrun q1 t)) by now rewrite E2. subst rs.
-  destruct o as [m| | | |]; unfold qstep in E1.
+  destruct o as [m| |taken| | |]; unfold qstep in E1.
   - destruct (Nat.ltb (q_mtu q) (length (q_payload m))) eqn:Lm.
     { inversion E1; subst. cbn [sx_of_qout p_qseq]. change (is_sym "acc" (sym "ref")) with false. change (is_sym "ref" (sym "ref")) with true. cbv iota.
       assert (G : Nat.leb (length (q_payload m)) (q_mtu q1) = false) by (apply Nat.leb_gt; now apply Nat.ltb_lt).
@@ -41,9 +41,18 @@ Proof.
       rewrite qmsg_eqb_refl. apply (IH (mkQ (q_cap q) (q_mtu q) pt (q_closed q))); cbn.
       * cbn in Hc. lia.
       * intros E. specialize (Hcl E). discriminate.
+  - pose proof (IH q Hc Hcl) as IHq. destruct taken.
+    + destruct (q_items q) as [|m pt] eqn:Ei.
+      * inversion E1; subst. cbn [sx_of_qout p_qseq]. change (is_sym "ctx" (sym "ctx")) with true. cbv iota. rewrite ?Ei in IHq. exact IHq.
+      * inversion E1; subst. destruct m as [[s d] p]. cbn [sx_of_qout p_qseq]. change (is_sym "got" (sym "got")) with true. cbn [negb].
+        rewrite qmsg_eqb_refl. apply (IH (mkQ (q_cap q) (q_mtu q) pt (q_closed q))); cbn.
+        -- cbn in Hc. lia.
+        -- intros E. specialize (Hcl E). discriminate.
+    + assert (E1' : (q, QCtxErr) = (q1, r)) by (destruct (q_items q); exact E1).
+      inversion E1'; subst. cbn [sx_of_qout p_qseq]. change (is_sym "ctx" (sym "ctx")) with true. cbv iota. exact IHq.
   - inversion E1; subst. cbn [sx_of_qout p_qseq]. rewrite N.eqb_refl.
     apply (IH (mkQ (q_cap q) (q_mtu q) [] (q_closed q))); cbn; auto. lia.
-  - inversion E1; subst. cbn [sx_of_qout p_qseq].
+  - inversion E1; subst. cbn [sx_of_qout p_qseq]. change (is_sym "close-stuck" (sym "done")) with false. cbv iota.
     apply (IH (mkQ (q_cap q) (q_mtu q) [] true)); cbn; auto. lia.
   - inversion E1; subst. cbn [sx_of_qout p_qseq]. rewrite N.eqb_refl. apply IH; auto.
 Qed.
